@@ -120,6 +120,7 @@ static uintptr_t g_text_lo = 0, g_text_hi = 0;
 // >0 while the runtime manipulates its own containers: their allocations must
 // not re-enter the shadow bookkeeping.  Never held across a task switch.
 static int g_busy = 0;
+static uint64_t g_enum_sync_index = 0;
 static const char *g_trace_obj = nullptr;
 struct Busy { Busy() { g_busy++; } ~Busy() { g_busy--; } };
 
@@ -207,6 +208,12 @@ static void decision_point(bool must_leave, bool is_sync, bool conflict) {
       int cand = it->second;
       if (cand >= 0 && cand < g_ntasks && g_tasks[cand].state == T_RUNNABLE && (cand != me || !must_leave)) next = cand;
     }
+  } else if (g_cfg.strategy == S_ENUM) {
+    if (is_sync && !must_leave) {
+      uint64_t k = g_enum_sync_index++;
+      for (auto &pt : g_cfg.enum_points)
+        if (pt.first == k && pt.second >= 0 && pt.second < g_ntasks && pt.second != me && g_tasks[pt.second].state == T_RUNNABLE) next = pt.second;
+    }
   } else if (must_leave) {
     if (g_cfg.strategy == S_PCT) next = highest_prio_runnable();
     else { int r = random_runnable(me); next = r; }
@@ -265,6 +272,7 @@ void init(int ntasks, const Config &cfg) {
   g_races.clear(); g_race_keys.clear(); g_realised.clear(); g_replay.clear(); g_abort.clear();
   g_mutexes.clear(); g_atomics.clear(); g_channels.clear(); g_objids.clear();
   g_ihash = Fnv();
+  g_enum_sync_index = 0;
   memset(&g_main_vc, 0, sizeof g_main_vc);
   g_main_vc.c[MAXT] = 1;
   for (auto &e : cfg.schedule) g_replay[{e.task, e.yield}] = e.next;
